@@ -101,6 +101,12 @@ func (c *clientConn) recv() error {
 		if err != nil {
 			return err
 		}
+		if err := validateResponse(typ, data); err != nil {
+			// The callers decode responses with the unchecked unmarshal helpers.
+			// A response that is not structurally complete must never reach them;
+			// treat it like any other protocol failure of the connection.
+			return fmt.Errorf("malformed %v response: %w", typ, err)
+		}
 
 		ch, ok := c.getChannel(sid)
 		if !ok {
@@ -113,6 +119,37 @@ func (c *clientConn) recv() error {
 
 		ch <- result{typ: typ, data: data}
 	}
+}
+
+// validateResponse checks that a response packet is structurally complete for its type:
+// every length and count it carries must be covered by the bytes that follow.
+func validateResponse(typ fxp, data []byte) error {
+	_, b, err := unmarshalUint32Safe(data) // request id
+	if err != nil {
+		return err
+	}
+	switch typ {
+	case sshFxpStatus:
+		// The error message and language tag are optional (some servers omit them); the code is not.
+		_, _, err = unmarshalUint32Safe(b)
+	case sshFxpHandle, sshFxpData:
+		_, _, err = unmarshalStringSafe(b)
+	case sshFxpAttrs:
+		_, _, err = unmarshalAttrs(b)
+	case sshFxpName:
+		var count uint32
+		count, b, err = unmarshalUint32Safe(b)
+		for i := uint32(0); err == nil && i < count; i++ {
+			if _, b, err = unmarshalStringSafe(b); err != nil {
+				break
+			}
+			if _, b, err = unmarshalStringSafe(b); err != nil {
+				break
+			}
+			_, b, err = unmarshalAttrs(b)
+		}
+	}
+	return err
 }
 
 func (c *clientConn) putChannel(ch chan<- result, sid uint32) bool {
